@@ -12,6 +12,7 @@
    Lengths are integers in units of 2^-10 (None = Python None, counted as 0). *)
 From Coq Require Import ZArith QArith List Bool.
 From DV Require Import Model.PyPrims Model.Tree Model.C14Model Model.C14Spec Model.C14Spec2 Model.C14Spec3 Model.C14Csv Proofs.C14Proofs Proofs.C14Means Proofs.C14Clu Proofs.C14Upgma Proofs.C14Nj Proofs.C14Ultra Proofs.C14Uniq Proofs.C14UpgmaFull Proofs.C14CsvProofs Proofs.C14Qcrit Proofs.C14FourPoint Proofs.C14NjQ Proofs.C14NjTree Proofs.C14SplitTree Proofs.C14SplitFormula Proofs.C14NjUniq Proofs.C14NjUniqEx Proofs.C14NjPoly.
+From DV Require Import Model.C14Hist Model.C14ObjPrims Model.C14ObjModel Proofs.C14Dict Proofs.C14ObjProofs.
 Import ListNotations.
 Open Scope Z_scope.
 
@@ -836,3 +837,66 @@ Example nj_polytomy_example :
   Qred (split_len ex_poly_nj (fun x => 3 <=? x)) = 2%Q /\ Qred (split_len (tq ex_poly) (fun x => 3 <=? x)) = 2%Q.
 Proof. exact (conj ex_poly_runs ex_poly_ok). Qed.
 Print Assumptions nj_polytomy_example.
+
+(* ------------------------------------------------------------------------------------------------ *)
+(* SEVENTH WAVE: several matrix objects (Model/C14ObjPrims.v, Model/C14ObjModel.v, Proofs/C14ObjProofs.v).
+   A world = a store of container objects (sets, outer dicts) + matrix objects holding container ids;
+   run_mops ops world_empty = the world after a history of  PhylogeneticDistanceMatrix() / clone (copy.copy) /
+   compile_from_tree / compile_from_dict / clear  on named objects;  abs w j = the value (tables dereferenced)
+   of object j, from which every query on j is computed. *)
+
+(* independence: in every reachable world every object is fully formed and NO container is referred to
+   twice - not by two matrix objects, not by two attributes of one *)
+Theorem multi_object_independence :
+  forall (ops : list mop) (w : world), run_mops ops world_empty = Ok w ->
+  (forall j o a, dget j (w_objs w) = Some o ->
+     exists c v, get_c a o = Some c /\ 0 <= c < w_next w /\ hget w c = Some v /\ kind_ok a v) /\
+  (forall j k oj ok a b c,
+     dget j (w_objs w) = Some oj -> dget k (w_objs w) = Some ok ->
+     get_c a oj = Some c -> get_c b ok = Some c -> j = k /\ a = b).
+Proof. exact multi_object_independence_top. Qed.
+Print Assumptions multi_object_independence.
+
+(* frame: an operation called on one object (or creating a new one) leaves every other object's
+   attributes and value - hence every query result - unchanged *)
+Theorem multi_object_frame :
+  forall (ops : list mop) (w : world) (op : mop) (w' : world) (j : oid) (oj : obj),
+  run_mops ops world_empty = Ok w -> apply_mop op w = Ok w' ->
+  dget j (w_objs w) = Some oj -> target op <> Some j ->
+  dget j (w_objs w') = Some oj /\ abs w' j = abs w j.
+Proof. exact multi_object_frame_top. Qed.
+Print Assumptions multi_object_frame.
+
+(* compile_from_tree on a named object: its value becomes the value-level compile_from_tree (to which
+   pdm_exact, pdm_sym, mean_pairwise_spec, ... apply), whatever the object held before and whatever other
+   objects exist; an exception of the value-level model is the exception of the call *)
+Theorem compile_from_tree_on_object :
+  forall (ops : list mop) (w w' : world) (i : oid) (t : tree) (p : pdm),
+  run_mops ops world_empty = Ok w -> apply_mop (MTree i t) w = Ok w' -> compile_from_tree t = Ok p ->
+  abs w' i = Ok (mkPdm (p_tree_length p) (p_num_edges p) (p_dist p) (p_steps p) (p_mrca p) (p_mapped p) (p_pairs p) []).
+Proof. exact compile_from_tree_on_object_top. Qed.
+Print Assumptions compile_from_tree_on_object.
+
+(* clone: a NEW object whose value is the original's at clone time (tables that are dicts: no repeated key) *)
+Theorem clone_has_value_of_original :
+  forall (ops : list mop) (w w' : world) (i n : oid) (p : pdm),
+  run_mops ops world_empty = Ok w -> o_clone i w = Ok (w', n) -> abs w i = Ok p ->
+  (NoDup (dkeys (p_dist p)) /\ forall k r, dget k (p_dist p) = Some r -> NoDup (dkeys r)) ->
+  (NoDup (dkeys (p_steps p)) /\ forall k r, dget k (p_steps p) = Some r -> NoDup (dkeys r)) ->
+  (NoDup (dkeys (p_mrca p)) /\ forall k r, dget k (p_mrca p) = Some r -> NoDup (dkeys r)) ->
+  n = w_onext w /\ dget n (w_objs w) = None /\ abs w' n = Ok p.
+Proof. exact clone_has_value_of_original_top. Qed.
+Print Assumptions clone_has_value_of_original.
+
+(* the hypotheses are satisfiable and the statements say something: matrix, clone, the original
+   recompiled on the pruned tree - the clone still has the first tree's value (6 pairs), the original the
+   second's (3 pairs), and their mean pairwise distances differ *)
+Example multi_object_example :
+  exists w p1 p2, run_mops ex_ops world_empty = Ok w /\
+    compile_from_tree ex_t1 = Ok p1 /\ compile_from_tree ex_t2 = Ok p2 /\
+    abs w 1 = Ok (mkPdm (p_tree_length p1) (p_num_edges p1) (p_dist p1) (p_steps p1) (p_mrca p1) (p_mapped p1) (p_pairs p1) []) /\
+    abs w 0 = Ok (mkPdm (p_tree_length p2) (p_num_edges p2) (p_dist p2) (p_steps p2) (p_mrca p2) (p_mapped p2) (p_pairs p2) []) /\
+    length (p_pairs p1) = 6%nat /\ length (p_pairs p2) = 3%nat /\
+    mean_pairwise_distance p1 None true false <> mean_pairwise_distance p2 None true false.
+Proof. exact ex_history. Qed.
+Print Assumptions multi_object_example.
